@@ -17,29 +17,32 @@ Tie: correspondence run (`SchemaConverter::convert` vs `Emit.convertLines` on th
 namespace Emit
 
 /-- **C40 type names are single name tokens.** Whatever the prefix and the title / definition /
-`$ref` name (spaces, `!`, quotes, line breaks, empty, …), the emitted type name starts with a name
-start character and the doc lexer's name rule (`read_doc_name`) consumes all of it. -/
+`$ref` name (spaces, `!`, quotes, line breaks, empty, keywords, …), the emitted type name starts with
+a name start character and the doc lexer's name rule (`read_doc_name`) consumes all of it. -/
 theorem C40_typeName_is_one_name (alnum alpha : Char → Bool) (h : AlnumOk alnum)
     (pre name : List Char) :
     ∃ c r, typeName alnum alpha pre name = c :: r ∧ (alpha c = true ∨ c = '_') ∧
       readNameRest alnum r = (r, []) := by
+  obtain ⟨c, r, hs, hc, hr⟩ := sanitized_is_one_name alnum alpha pre name
   unfold typeName
-  have hok := okFrom_sanitize alnum none (pre ++ name)
-  cases hs : sanitizeGo alnum none (pre ++ name) with
-  | nil => exact ⟨'_', [], rfl, Or.inr rfl, rfl⟩
-  | cons c r =>
-    rw [hs] at hok
-    simp only [okFrom, Bool.and_eq_true] at hok
-    obtain ⟨hc, hr⟩ := hok
-    have hc' : (alnum c || c == '_') = true := by simpa using hc
-    by_cases ha : (alpha c || c == '_') = true
-    · refine ⟨c, r, by simp [ha], ?_, readNameRest_ok alnum h (some c) r hr⟩
-      simp only [Bool.or_eq_true, beq_iff_eq] at ha
-      exact ha
-    · refine ⟨'_', c :: r, by simp [ha], Or.inr rfl, ?_⟩
-      apply readNameRest_ok alnum h (some '_')
-      simp only [okFrom, Bool.and_eq_true]
-      exact ⟨by simp only [Bool.or_eq_true] at hc' ⊢; exact Or.inl hc', hr⟩
+  simp only [hs]
+  split
+  · exact ⟨c, r ++ ['_'], rfl, hc, readNameRest_ok alnum h (some c) _ (okFrom_append_us alnum _ r hr)⟩
+  · exact ⟨c, r, rfl, hc, readNameRest_ok alnum h (some c) r hr⟩
+
+/-- **C40 a type name is never a bare keyword** (`fun`, `async`, `true`, `false`, `keyof`, `extends`,
+`as`, `in`, `and`, `or`, `else`), whatever the prefix (also the empty one) and the name -/
+theorem C40_typeName_not_keyword (alnum alpha : Char → Bool) (pre name : List Char) :
+    typeKeywords.contains (typeName alnum alpha pre name) = false := by
+  unfold typeName
+  simp only []
+  split
+  · rename_i hk
+    have hmem : sanitized alnum alpha pre name ∈ typeKeywords := by simpa using hk
+    generalize sanitized alnum alpha pre name = r at hmem
+    simp only [typeKeywords, List.mem_cons, List.not_mem_nil, or_false] at hmem
+    rcases hmem with rfl | rfl | rfl | rfl | rfl | rfl | rfl | rfl | rfl | rfl | rfl <;> decide
+  · rename_i hk; simpa using hk
 
 /-- **C40 string literals are single closed string tokens.** When a value has a literal form, the
 literal is a quote, the value unchanged, the same quote; the doc lexer's string rule started after
@@ -72,14 +75,45 @@ theorem C40_stringLiteralType_cases (s : List Char) :
   | some q => exact Or.inr ⟨q, rfl, rfl⟩
 
 /-- **C40 descriptions stay inside comments.** Every line written for a description (any text:
-`\n`, `\r\n`, lone `\r`, NUL, `---@class` look-alikes) starts with `--- ` and contains no line break,
-so none of it can become code or a tag of its own. -/
+`\n`, `\r\n`, lone `\r`, NUL, text that begins with `@class`, `@field`, `---@class`, `-- --- @x`, … directly,
+after white space or after a line break) starts with `--- `, contains no line break, and **no part of
+it is lexed as a tag** by the doc lexer (model `tagStart`/`tagAfter` of `lex_init` and
+`lex_normal_description`: `---`, white space, `@`, also behind further `---`/`--`/`//` comment
+starts): none of it can become code or an annotation of its own. -/
 theorem C40_docLines_are_comment_lines (t : List Char) :
-    ∀ l ∈ docLines t, ∃ body, l = "--- ".toList ++ body ∧ ∀ c ∈ body, isBreak c = false := by
+    ∀ l ∈ docLines t, (∃ body, l = "--- ".toList ++ body ∧ ∀ c ∈ body, isBreak c = false) ∧
+      tagStart l = false := by
   intro l hl
   simp only [docLines, List.mem_map] at hl
   obtain ⟨body, hb, rfl⟩ := hl
-  exact ⟨body, rfl, commentLines_no_break t body hb⟩
+  have hnb := commentLines_no_break t body hb
+  refine ⟨⟨escapeTag body, rfl, ?_⟩, tagStart_docLine body⟩
+  intro c hc
+  unfold escapeTag at hc
+  split at hc
+  · rcases List.mem_cons.mp hc with rfl | hc
+    · decide
+    · exact hnb c hc
+  · exact hnb c hc
+
+/-- **C40 a field key is one key.** For every property name, the key written after `---@field` is
+either the name itself — then it is a plain identifier and none of the words the field grammar reads
+as a modifier (`private`, `protected`, `public`, `package`, `readonly`) — or `[` a closed string
+literal holding exactly the name `]`; names with no literal form produce no field line at all. -/
+theorem C40_fieldName_is_one_key (name k : List Char) (h : fieldKey name = some k) :
+    (k = name ∧ plainIdent name = true ∧ fieldModifiers.contains name = false) ∨
+    (∃ lit, stringLiteral name = some lit ∧ k = '[' :: lit ++ [']']) := by
+  unfold fieldKey at h
+  split at h
+  · right
+    cases hl : stringLiteral name with
+    | none => simp [hl] at h
+    | some lit => simp [hl] at h; exact ⟨lit, rfl, h.symm⟩
+  · rename_i hn
+    left
+    cases h
+    simp only [needsBracket, Bool.or_eq_true, Bool.not_eq_true', not_or] at hn
+    exact ⟨rfl, by simpa using hn.2, by simpa using hn.1⟩
 
 /-- **C40 the reported root type is declared.** For every schema of the modelled fragment (any title
 or none, any properties) the annotation text contains the line `---@class <root>` for exactly the
@@ -98,6 +132,14 @@ example : typeName asciiAlnum asciiAlpha "schema.".toList "my type!".toList = "s
 example : typeName asciiAlnum asciiAlpha [] "1x".toList = "_1x".toList := by decide +kernel
 example : stringLiteral "a\"b".toList = some "'a\"b'".toList := by decide +kernel
 example : stringLiteral "n\nl".toList = none := by decide +kernel
+example : docLines "@class Evil\n  @field x\n---@class E".toList =
+    ["--- \\@class Evil".toList, "--- \\  @field x".toList, "--- \\---@class E".toList] := by decide +kernel
+-- what the unescaped lines would be for the lexer: tags
+example : tagStart "--- @class Evil".toList = true ∧ tagStart "--- ---@class E".toList = true ∧
+    tagStart "--- -- --- @x".toList = true ∧ tagStart "--- text @class".toList = false := by decide +kernel
+example : fieldKey "private".toList = some "[\"private\"]".toList := by decide +kernel
+example : fieldKey "it's \"q\"".toList = none := by decide +kernel
+example : typeName asciiAlnum asciiAlpha [] "fun".toList = "fun_".toList := by decide +kernel
 example : commentLines "a\r\nb\rc".toList = ["a".toList, "b".toList, "c".toList] := by decide +kernel
 example : (convertLines asciiAlnum asciiAlpha false
     ⟨some "my type!".toList, none, [⟨"a\"b".toList, none, true, .prim "string".toList⟩]⟩).drop 3 =
